@@ -97,12 +97,12 @@ def build_cases(progs, wd, depth, max_paths, per_prog, flavour="debug"):
     return cases, skipped, {p["id"]: p for p in ps}
 
 
-def run_tlc(cases, wd, name="c01"):
+def run_tlc_one(cases, wd, name):
     path = os.path.join(wd, "%s.sem.ndjson" % name)
     with open(path, "w") as f:
         for c in cases:
             f.write(json.dumps({k: c[k] for k in ("case", "prog", "path", "turns", "final")}) + "\n")
-    res = lib.run_tlc("InkSemTrace", "InkSemTrace.cfg", wd, env_extra={"SEM": path}, workers=1, timeout=3000, xmx="8g")
+    res = lib.run_tlc("InkSemTrace", "InkSemTrace.cfg", wd, env_extra={"SEM": path}, workers=1, timeout=3000, xmx="3g")
     mism = []
     for line in lib.tlc_prints(res["out"], "MISMATCH"):
         m = re.match(r'<<"MISMATCH", "([^"]*)", (\d+), "([^"]*)", "([^"]*)", "(.*)">>$', line)
@@ -111,7 +111,20 @@ def run_tlc(cases, wd, name="c01"):
         exp = json.loads(json.loads('"' + m.group(5) + '"'))
         mism.append(dict(case=m.group(1), turn=int(m.group(2)), rule=m.group(3), detail=m.group(4), expected=exp))
     cons = lib.tlc_prints(res["out"], "CONSUMED")
-    return res, mism, cons
+    if not res["ok"] or not cons:
+        raise lib.ToolError("InkSemTrace failed:\n" + "\n".join(res["out"].splitlines()[-30:]))
+    return res, mism
+
+
+def run_tlc(cases, wd, name="c01", jobs=12):
+    """the cases are independent: several TLC processes share them"""
+    from concurrent.futures import ThreadPoolExecutor
+    jobs = max(1, min(jobs, len(cases) // 10 or 1))
+    parts = [cases[i::jobs] for i in range(jobs)]
+    with ThreadPoolExecutor(jobs) as ex:
+        outs = list(ex.map(lambda a: run_tlc_one(a[1], wd, "%s-%d" % (name, a[0])), enumerate(parts)))
+    res = dict(ok=True, distinct=sum(r["distinct"] for r, _ in outs), states=sum(r["states"] for r, _ in outs))
+    return res, [m for _, ms in outs for m in ms], True
 
 
 def readable(t):
@@ -142,7 +155,7 @@ def run(tier, seed, features=None, n=None, debug=False):
     all_cases, all_mism, states, trans = [], [], 0, 0
     skipped_total = {}
     srcs = {}
-    chunk = 60
+    chunk = 300
     for k in range(0, len(progs), chunk):
         cases, skipped, ps = build_cases(progs[k:k + chunk], wd, depth=3 if quick else 4, max_paths=12 if quick else 30,
                                          per_prog=3 if quick else 8)
@@ -159,8 +172,6 @@ def run(tier, seed, features=None, n=None, debug=False):
         if not cases:
             continue
         res, mism, cons = run_tlc(cases, wd, "c01-%d" % k)
-        if not res["ok"] or not cons:
-            raise lib.ToolError("InkSemTrace failed:\n" + "\n".join(res["out"].splitlines()[-30:]))
         states += res["distinct"]
         trans += res["states"]
         bycase = {c["case"]: c for c in cases}
